@@ -31,8 +31,8 @@ TECHNIQUE = ("explicit-state breadth-first exploration of loader operation histo
              "reference model on uid tuples at every transition, per-row observers in every reached state")
 DESIGN_REF = "DESIGN.md section 3, C03"
 RULE = (
-    "states = (initial construction, ordered uid tuple) reached by BFS to closure from 5 initial loaders (1 single-tomogram, "
-    "4 batch constructions incl. re-used image id, from_loaders, reversed order); transitions = real loader methods; "
+    "states = (initial construction, ordered uid tuple) reached by BFS to closure from 6 initial loaders (1 single-tomogram, "
+    "5 batch constructions incl. re-used image id, from_loaders, reversed order, numpy tomogram before dask tomograms); transitions = real loader methods; "
     "every state is observed by 9 per-row observers and 8 group observers; non-trivial state = at least 2 molecules and not the initial order"
 )
 LEVEL_TEXT = ("all loader states reachable by the operation alphabet from the initial constructions are enumerated to closure; "
@@ -125,7 +125,7 @@ def tomos(universe, nmol, ntomo):
     return _TOMO_CACHE[key]
 
 
-INITS = ["single", "batch", "batch-rev", "batch-reuse-id", "from_loaders"]
+INITS = ["single", "batch", "batch-rev", "batch-reuse-id", "from_loaders", "batch-mixed-arrays"]
 
 
 def build_initial(name, universe, nmol, ntomo):
@@ -145,6 +145,16 @@ def build_initial(name, universe, nmol, ntomo):
         order = []
         for t in range(ntomo):
             ld.add_tomogram(T[t], molecules(by_t[t]), image_id=t)
+            order += by_t[t]
+        return ld, tuple(order)
+    if name == "batch-mixed-arrays":
+        # an in-memory tomogram registered before lazily loaded (dask) ones
+        from dask import array as da
+
+        ld = BatchLoader(**kw)
+        order = []
+        for t in range(ntomo):
+            ld.add_tomogram(T[t] if t == 0 else da.from_array(T[t], chunks=(10, 11, 8)), molecules(by_t[t]), image_id=t)
             order += by_t[t]
         return ld, tuple(order)
     if name == "batch-rev":
@@ -386,14 +396,15 @@ def run_case(case):
     if kind == "batch" and m.features["image-id"].to_list() != [tomo_of(u, ntomo) for u in uids]:
         bad("molecules", "image-id-detached", f"image-id {m.features['image-id'].to_list()} for uids {uids}")
     # o9 binning(2): block sums of the fingerprint at floor(pos/2)
-    Lb = LF.binning(2, compute=False) if kind == "batch" else LF.binning(2)
-    gotb = [float(a[0, 0, 0]) for a in np.asarray(Lb.asnumpy(output_shape=(1, 1, 1)))]
     wantb = []
     for u in uids:
         z0, y0, x0 = [2 * (p // 2) for p in POS[u]]
         wantb.append(8 * 32768.0 * tomo_of(u, ntomo) + 1024.0 * (8 * z0 + 4) + 32.0 * (8 * y0 + 4) + (8 * x0 + 4))
-    if gotb != wantb:
-        bad("binning(2)", "row-mismatch", f"binned centre sums {gotb} != {wantb}")
+    for comp in ((False, True) if kind == "batch" else (None,)):
+        Lb = LF.binning(2, compute=comp) if kind == "batch" else LF.binning(2)
+        gotb = [float(a[0, 0, 0]) for a in np.asarray(Lb.asnumpy(output_shape=(1, 1, 1)))]
+        if gotb != wantb:
+            bad(f"binning(2{'' if comp is None else ',compute=%s' % comp})", "row-mismatch", f"binned centre sums {gotb} != {wantb}")
     if loader_uids(LF) != uids:
         bad("binning(2)", "parent-modified", "binning changed the parent loader")
 
